@@ -98,7 +98,7 @@ TupCode(K, G, tup) ==
   Sum({t \in 1..NC(K) : G[tup[Cells(K)[t][1]]][tup[Cells(K)[t][2]]] # 0}, LAMBDA t : Wt(K, t))
 AscTuple(S) == SetToSortSeq(S, <)
 SubCode(K, G, S) == TupCode(K, G, AscTuple(S))
-ConnSubs(n, G, K) == {S \in kSubset(K, 1..n) : SubCode(K, G, S) \in ConnCodes(K)}
+ConnSubs(n, G, K) == IF n < K THEN {} ELSE {S \in kSubset(K, 1..n) : SubCode(K, G, S) \in ConnCodes(K)}
 (* structural occurrences: connected K-subset |-> its class                      *)
 StructOcc(n, G, K) == Tab([S \in ConnSubs(n, G, K) |-> ClassTab(K)[SubCode(K, G, S)]])
 StructTotal(occ, cl) == Cardinality({S \in DOMAIN occ : occ[S] = cl})
